@@ -105,11 +105,13 @@ def build(spec):
         per = (len(nested) + SWEEP_TASKS - 1) // SWEEP_TASKS
         blocks = []
         for t in nested[i * per:(i + 1) * per]:
-            for shape in ("keepinner", "twice", "plain"):
+            for shape in ("keepinner", "twice", "plain", "keepinner-used"):
                 g = B.Gen(rw, {"pseudo": False, "bait": 0})
                 g.h = 3
                 u = g.instantiate(t, 3, 1)
-                g.compile(("keepinner", u) if shape == "keepinner" else ("twice", "ADD", u) if shape == "twice" else u)
+                g.compile(("keepinner", u) if shape.startswith("keepinner") else ("twice", "ADD", u) if shape == "twice" else u)
+                if shape == "keepinner-used" and g.h >= 5:
+                    g.items.append(("LT", None))          # another instruction reads the inner term
                 blocks.append(g.items)
         return {"argv": ["-length", "-solver", "z3"] + (["-push0"] if i % 2 else []), "blocks": [AJ.items_to_text(b, 2) for b in blocks],
                 "peers": PEERS, "max_len": 12, "greedy": True}
